@@ -47,13 +47,22 @@ static vector<long> flat(const P2& p, int64_t v) { return {p.x, p.y, v}; }
 static vector<long> flat(const P3& p, int64_t v) { return {p.x, p.y, p.z, v}; }
 static vector<long> coords(const P2& p) { return {p.x, p.y}; }
 static vector<long> coords(const P3& p) { return {p.x, p.y, p.z}; }
+// The tree only compares coordinates, so a history may run on real coordinates (c - g_co) * g_cs (order-preserving):
+// negative values and neighbours that are 2^31, 2^32 or 2^40 apart; events carry the logical coordinates.
+static int64_t g_cs = 1, g_co = 0;
+static int64_t rc(int64_t c) { return (c - g_co) * g_cs; }
+static int64_t lc(int64_t x) { return x % g_cs == 0 ? x / g_cs + g_co : 987654; }
+static P2 R(const P2& p) { return P2(rc(p.x), rc(p.y)); }
+static P3 R(const P3& p) { return P3(rc(p.x), rc(p.y), rc(p.z)); }
+static P2 L(const P2& p) { return P2(lc(p.x), lc(p.y)); }
+static P3 L(const P3& p) { return P3(lc(p.x), lc(p.y), lc(p.z)); }
 
 template <class T>
 static vector<vector<long>> items_of(const T& t) {
   vector<vector<long>> r;
   size_t guard = t.size() + 4;
   for (auto it = t.begin(); it != t.end(); ++it) {
-    r.push_back(flat(it->first, it->second));
+    r.push_back(flat(L(it->first), it->second));
     if (r.size() > guard) {
       r.push_back({-99});
       break;
@@ -64,14 +73,14 @@ static vector<vector<long>> items_of(const T& t) {
 
 template <class T, class P>
 static void ev_ins(vt::Trace& tr, T& t, const P& p, int64_t v) {
-  t.insert(p, v);
+  t.insert(R(p), v);
   vt::J j;
   j.str("e", "ins").raw("p", vec(coords(p))).num("v", v).num("size", (long long)t.size()).raw("items", vecs(items_of(t)));
   tr.emit(j);
 }
 template <class T, class P>
 static bool ev_era(vt::Trace& tr, T& t, const P& p, int64_t v) {
-  bool r = t.erase(p, v);
+  bool r = t.erase(R(p), v);
   vt::J j;
   j.str("e", "era").raw("p", vec(coords(p))).num("v", v).num("ret", r).num("size", (long long)t.size());
   j.raw("items", vecs(items_of(t)));
@@ -82,7 +91,7 @@ template <class T, class P>
 static void ev_at(vt::Trace& tr, T& t, const P& p) {
   long ret;
   try {
-    ret = t.at(p);
+    ret = t.at(R(p));
   } catch (const out_of_range&) {
     ret = -1;
   }
@@ -90,26 +99,26 @@ static void ev_at(vt::Trace& tr, T& t, const P& p) {
   j.str("e", "at").raw("p", vec(coords(p))).num("ret", ret);
   tr.emit(j);
   vt::J k;
-  k.str("e", "exists").raw("p", vec(coords(p))).num("ret", t.exists(p));
+  k.str("e", "exists").raw("p", vec(coords(p))).num("ret", t.exists(R(p)));
   tr.emit(k);
 }
 template <class T, class P>
 static void ev_within(vt::Trace& tr, T& t, const P& lo, const P& hi) {
   vector<vector<long>> r;
   string exc;
-  for (auto& e : t.within(lo, hi)) r.push_back(flat(e.first, e.second));
+  for (auto& e : t.within(R(lo), R(hi))) r.push_back(flat(L(e.first), e.second));
   vt::J j;
   j.str("e", "within").raw("lo", vec(coords(lo))).raw("hi", vec(coords(hi))).raw("ret", vecs(r));
-  j.num("ex", t.exists(lo, hi));
+  j.num("ex", t.exists(R(lo), R(hi)));
   tr.emit(j);
 }
 static void ev_probe(vt::Trace& tr, T2& t, int g) {
   vector<long> ex, at;
   for (int i = 0; i < g * g; i++) {
     P2 p(i / g, i % g);
-    ex.push_back(t.exists(p));
+    ex.push_back(t.exists(R(p)));
     try {
-      at.push_back(t.at(p));
+      at.push_back(t.at(R(p)));
     } catch (const out_of_range&) {
       at.push_back(-1);
     }
@@ -127,15 +136,15 @@ static void ev_boxes(vt::Trace& tr, T2& t, int g) {
       for (int hx = 0; hx <= g; hx++)
         for (int hy = 0; hy <= g; hy++) {
           P2 lo(lx, ly), hi(hx, hy);
-          auto w = t.within(lo, hi);
+          auto w = t.within(R(lo), R(hi));
           // every returned entry must really lie in the box (checked here only as the 7th field; count and
           // existence are judged by the specification)
           long inside = 1;
           for (auto& e : w)
-            if (e.first.x < lx || e.first.x >= hx || e.first.y < ly || e.first.y >= hy) inside = 0;
+            if (L(e.first).x < lx || L(e.first).x >= hx || L(e.first).y < ly || L(e.first).y >= hy) inside = 0;
           if (!first) s += ",";
           first = false;
-          s += vec({lx, ly, hx, hy, (long)w.size(), (long)t.exists(lo, hi), inside});
+          s += vec({lx, ly, hx, hy, (long)w.size(), (long)t.exists(R(lo), R(hi)), inside});
         }
   s += "]";
   vt::J j;
@@ -153,7 +162,7 @@ static void ev_itera(vt::Trace& tr, T& t, const string& kind, long c) {
   vector<vector<long>> visited;
   size_t guard = t.size() * 2 + 8;
   for (auto it = t.begin(); it != t.end();) {
-    vector<long> e = flat(it->first, it->second);
+    vector<long> e = flat(L(it->first), it->second);
     visited.push_back(e);
     if (visited.size() > guard) {
       visited.push_back({-99});
@@ -180,6 +189,9 @@ static void ev_itera(vt::Trace& tr, T& t, const string& kind, long c) {
 static void small_history(vt::Trace& tr, const vector<int>& seq, const vector<int>* erase_order, bool boxes) {
   tr.emit("{\"e\":\"Reset\",\"d\":2}");
   tr.histories++;
+  static const int64_t SC[] = {1, 1, 3000000000LL, 1LL << 32};
+  g_cs = SC[tr.histories % 4];
+  g_co = g_cs == 1 ? 0 : 1;  // scaled grids are centred: coordinates -s, 0, +s
   T2* t = new T2();
   for (size_t i = 0; i < seq.size(); i++) ev_ins(tr, *t, P2(seq[i] / 3, seq[i] % 3), 1 + (i % 2));
   ev_probe(tr, *t, 3);
@@ -195,6 +207,8 @@ static void small_history(vt::Trace& tr, const vector<int>& seq, const vector<in
   }
   delete t;  // destroyed in every reached state, including empty
   tr.emit("{\"e\":\"destroy\"}");
+  g_cs = 1;
+  g_co = 0;
 }
 
 static void small(vt::Trace& tr, int maxlen, int shard, int nshards, int sample_pct, uint64_t seed) {
@@ -248,6 +262,9 @@ static void random_history(vt::Trace& tr, vt::Rng& r, int dims, int len) {
   int nv = (int)r.range(1, 3);
   tr.emit("{\"e\":\"Reset\",\"d\":" + to_string(dims) + "}");
   tr.histories++;
+  static const int64_t SC[] = {1, 1, 1, 3000000000LL, 1LL << 32, (1LL << 40) + 7};
+  g_cs = SC[r.below(6)];
+  g_co = r.chance(50) ? side / 2 : 0;
   T* t = new T();
   vector<pair<P, int64_t>> live;
   auto rp = [&]() {
@@ -326,6 +343,8 @@ static void random_history(vt::Trace& tr, vt::Rng& r, int dims, int len) {
   ev_iter(tr, *t);
   delete t;
   tr.emit("{\"e\":\"destroy\"}");
+  g_cs = 1;
+  g_co = 0;
 }
 
 int main(int argc, char** argv) {
